@@ -18,8 +18,16 @@
      deep-converted to [tree], nil entries dropped) and the host-call log, and resource_error is
      one of Timeout / Stackoverflow / CallStackOverflow / OutOfMemory (possibly inside a
      TaskFailure): refinement up to resource exhaustion, the resource side being what C03 / C04 /
-     C05 state.  [PUnspec] results are outside the claim.  Until that proof exists the claim is
-     carried by the differential check C01Check (the real compiler + VM against eval_program). *)
+     C05 state.  [PUnspec] results are outside the claim.
+
+   compile_correct is PROVED FOR THREE NESTED FRAGMENTS of the language (second half of this file:
+   C01_compile_correct_f1 / _f2 / _f3, C01_fragments_well_scoped), against the merged models
+   Compiler.compile, C15Link.to_vm, Vm.run and RefSem.eval_program: programs that consist of `main`
+   alone, over integer / nil globals, with arithmetic, comparison and boolean operators, global
+   assignment, IfTrue / IfFalse / IfElse, Composite, and While loops at the top level of main; the
+   resource side is explicit (hypotheses on expression depth and budget).  For everything else
+   (reals, locals, Repeat / ForEach, nested loops, calls, tables, closures, natives) the claim is
+   carried by the differential check C01Check (the real compiler + VM against eval_program). *)
 From Coq Require Import List NArith ZArith Bool Arith String Ascii.
 Import ListNotations.
 From Cao Require Import CardAst RefSem RefScope RefSemProofs.
